@@ -301,8 +301,19 @@ def g_modulated(rng, extra=True):
         n = c["n"]
         cn = [f"m{i}" for i in range(n)]
         f = [tt_to_expr(n, c["tt"][i], cn) for i in range(n)]
-    alt_kind = rng.choice(["freeze", "other", "latch", "xor"])
-    for k in range(n):
+    alt_kind = rng.choice(["freeze", "other", "latch", "xor", "samewire", "samewire"])
+    if alt_kind == "samewire":
+        # the input switches the *function* of the module while regulators and signs stay the same
+        n = 3
+        cn = ["m0", "m1", "m2"]
+        pairs = [(f"{a} | {b}", f"{a} & {b}") for a, b in (("m1", "m2"), ("m0", "m2"), ("m0", "m1"))]
+        for k in range(n):
+            a, b = pairs[k] if rng.random() < 0.5 else pairs[k][::-1]
+            if rng.random() < 0.3:
+                a, b = f"{cn[k]} | ({a})", f"{cn[k]} & ({b})"
+            lines.append(f"{cn[k]}, (i0 & ({a})) | (!i0 & ({b}))")
+        f = []
+    for k in range(n if alt_kind != "samewire" else 0):
         if alt_kind == "freeze":
             g = cn[k]
         elif alt_kind == "latch":
